@@ -453,6 +453,21 @@ def check_case(pyhf, case, backend, precision, props, rng, model_cache, extra_ba
                     if len(ea) != len(exp_list) or any(not _close(g, e, tol) for g, e in zip(ea, exp_list)):
                         F.append(Finding("C02", "expected_auxdata does not pair parameters with their auxiliary positions", det, tags_base + ["expaux"]))
 
+        elif all(frac(t["lam"]) >= 0 for t in terms if t["k"] == "pois"):
+            # a rate that is exactly zero: log Poisson(n | 0) is 0 for n = 0 and -infinity otherwise (the limit C04 names)
+            dead = any(frac(t["lam"]) == 0 and frac(t["n"]) > 0 for t in terms if t["k"] == "pois")
+            if dead:
+                try:
+                    tp, td = tl.astensor(pars), tl.astensor(data)
+                    full = float(tl.tolist(model.logpdf(tp, td))[0])
+                    dens = float(tl.tolist(model.pdf(tp, td))[0])
+                except Exception as e:
+                    F.append(Finding("C02", f"logpdf evaluation failed: {type(e).__name__}: {e}", {"case": slim}, tags_base + ["evalfail"]))
+                else:
+                    if not (full == -math.inf and dens == 0.0):
+                        F.append(Finding("C02", "a positive count in a bin with zero expected rate does not give log-density -inf (density 0)",
+                                         {"case": slim, "pars": pars, "data": data, "logpdf": full, "pdf": dens}, tags_base + ["zero_rate"]))
+
     # ---------------- C10: batched = row by row
     if "C10" in props and model_b is not None:
         pars2 = assemble_pars(model, case["theta2"])
